@@ -270,3 +270,53 @@ func HarnessC04WriteFault() {
 		check(err.Code() != 0, "a failed transport write reports a coded non-OK error")
 	}
 }
+
+// HarnessC04TransportFailure: the exchange fails before any response exists
+// and the transport's error happens to wrap io.EOF (as net/http reports a
+// server that closed the connection: `Post "...": EOF`) or
+// io.ErrUnexpectedEOF.  No call shape of no protocol may report success.
+//
+//verif:harness property=C04 stubs=json,wire shard=proto:3
+func HarnessC04TransportFailure() {
+	proto := nondetChoice("proto", 3)
+	var cause error
+	switch nondetChoice("cause", 3) {
+	case 0:
+		cause = io.EOF
+	case 1:
+		cause = io.ErrUnexpectedEOF
+	default:
+		cause = errOpaqueTransport
+	}
+	var terr error = &c15URLError{cause}
+	if nondetBool("bare") {
+		terr = cause
+	}
+	client := NewClient[[]byte, []byte](&failingTransport{err: terr}, stackURL, stackClientOptions(proto)...)
+	in := []byte{1}
+	if nondetBool("stream") {
+		stream, err := client.CallServerStream(context.Background(), NewRequest(&in))
+		if err == nil {
+			n := 0
+			for stream.Receive() {
+				n++
+				if n > 2 {
+					break
+				}
+			}
+			check(n == 0, "a failed exchange delivers no message")
+			err = stream.Err()
+			_ = stream.Close()
+		}
+		check(err != nil, "a server stream whose exchange failed never ends cleanly")
+		if err != nil {
+			check(CodeOf(err) != 0, "the failure of the exchange is reported with a non-zero code")
+		}
+		return
+	}
+	res, err := client.CallUnary(context.Background(), NewRequest(&in))
+	check(err != nil && res == nil, "a unary call whose exchange failed never reports success")
+	if err != nil {
+		check(CodeOf(err) != 0, "the failure of the exchange is reported with a non-zero code")
+	}
+}
